@@ -177,6 +177,11 @@ func FragFMP4(seq int, tracks []TrackDef, ids []int, units map[int][]Unit) ([]by
 
 // SegTS builds one MPEG-TS segment; units are in 90 kHz and interleaved by DTS.
 func SegTS(tracks []TrackDef, units map[int][]Unit) ([]byte, error) {
+	return SegTSGrouped(tracks, units, 1)
+}
+
+// SegTSGrouped is SegTS with up to ausPerPES audio access units per PES packet.
+func SegTSGrouped(tracks []TrackDef, units map[int][]Unit, ausPerPES int) ([]byte, error) {
 	var buf bytes.Buffer
 	var mt []*mpegts.Track
 	for _, t := range tracks {
@@ -221,7 +226,9 @@ func SegTS(tracks []TrackDef, units map[int][]Unit) ([]byte, error) {
 		}
 	}
 	const wrap = int64(1) << 33
-	for _, it := range all {
+	// AusPerPES > 1: consecutive access units of an audio track (that no unit of another track separates) share one PES
+	for k := 0; k < len(all); k++ {
+		it := all[k]
 		dts := ((it.u.DTS % wrap) + wrap) % wrap
 		pts := ((it.u.DTS+int64(it.u.Off))%wrap + wrap) % wrap
 		switch tracks[it.ti].Codec {
@@ -230,7 +237,12 @@ func SegTS(tracks []TrackDef, units map[int][]Unit) ([]byte, error) {
 				return nil, err
 			}
 		case "aac":
-			if err := w.WriteMPEG4Audio(mt[it.ti], pts, [][]byte{audioAU(it.ti+1, it.u.ID)}); err != nil {
+			aus := [][]byte{audioAU(it.ti+1, it.u.ID)}
+			for len(aus) < ausPerPES && k+1 < len(all) && all[k+1].ti == it.ti {
+				k++
+				aus = append(aus, audioAU(all[k].ti+1, all[k].u.ID))
+			}
+			if err := w.WriteMPEG4Audio(mt[it.ti], pts, aus); err != nil {
 				return nil, err
 			}
 		}
